@@ -91,6 +91,28 @@ const UNKNOWN_LINES: &[&str] = &[
     "perft 3",
     "eval",
     "flip",
+    // lines that start with a character some tool or shell treats specially (a recorded
+    // session with annotations, a pasted prompt): still just lines the engine does not know
+    "# recorded session, annotated",
+    "#",
+    "#x",
+    "; note",
+    "// note",
+    "'quoted words'",
+    "> hello",
+    "!bang",
+    "@file.txt",
+    "\\",
+    "%1",
+    "-v",
+    "--help",
+    "*",
+    "[section]",
+    "{\"json\": 1}",
+    "<xml/>",
+    "$HOME",
+    "0000",
+    "e2e4",
 ];
 
 fn gen_line(rng: &mut Rng, heavy: bool) -> String {
